@@ -31,7 +31,7 @@ MODES_BY_PROP = {
 ADDED_MODES = {"C01": ("resubmit",), "C02": ("resubmit", "nodefaults"), "C06": ("faults", "batchfaults", "flaky", "resubmit"),
                "C11": ("nodefaults",), "C12": ("nodefaults",)}
 # share of the scenarios of a mode in which submission groups ask for a multi-node allocation (fault-free modes only)
-MULTINODE_MODES = {"plain": .2, "busy": .2, "hooks": .3}
+MULTINODE_MODES = {"plain": .2, "busy": .2, "hooks": .3, "batchfaults": .15}
 NODEKINDS = ("node", "worker")
 MAX_USER_TRYSUBMITS = 10
 MAX_OPS = 1500
